@@ -74,7 +74,72 @@ def writer_events(P, b, depth=0, ctx=("top",), seen=None):
     return out
 
 
+def write_errors_rule(ck, P):
+    """R-WRITE-ERR: a failing write stops the writer.  Every call of a DataWriterTrait method in the container writers hands its
+    Result straight to `?`, unwrap or expect, or is the value its function returns (and that function's callers do the same).
+    A Result that is stored, mapped or overwritten can be forgotten: the writer would go on to commit indexes and the final header
+    over a tile that was not written completely."""
+    sites, bad = 0, []
+
+    def tail_value(fn_body, node):
+        """is `node` the value the function evaluates to (tail position through blocks / `return node`)?"""
+        cur = ir.fn_block(fn_body)
+        for _ in range(8):
+            if cur is node:
+                return True
+            if cur.get("k") == "block" and "tail" in cur:
+                cur = cur["tail"]
+                continue
+            if cur.get("k") in ("await",):
+                cur = cur["e"]
+                continue
+            return False
+        return False
+    for b in P.bodies:
+        if "::container::" not in b["q"] or "::tests::" in b["q"] or b.get("target") not in (None, "lib"):
+            continue
+        if not (b["q"].split("::")[-2].endswith("Writer") or "writer" in b["q"]):
+            continue
+        for n, parents, _ in ir.walk(b["body"]):
+            if n.get("k") not in ("mcall", "call") or not (n.get("t") or "").startswith("std::result::Result"):
+                continue
+            if n.get("dk", "").startswith("Ctor") or "m" in n or any("m" in p_ and not p_.get("um") for p_ in parents[-3:]):
+                continue          # Ok(..)/Err(..) constructors and macro-generated calls (ensure!, bail!, format!)
+            sites += 1
+            par = [p for p in parents if p.get("k") not in ("await",)]
+            p1 = par[-1] if par else {}
+            ok = p1.get("k") == "try" or (p1.get("k") == "mcall" and p1.get("name") in ("unwrap", "expect") and p1.get("recv") is n)
+            if not ok and p1.get("k") == "mcall" and p1.get("name") in ("context", "with_context") and p1.get("recv") is n and len(par) >= 2:
+                p2 = par[-2]
+                ok = p2.get("k") == "try" or (p2.get("k") == "mcall" and p2.get("name") in ("unwrap", "expect"))
+            if not ok and p1.get("k") == "ret":
+                ok = True
+            if not ok and p1.get("k") == "match" and p1.get("e") is n:
+                # handled explicitly: some arm for Err leaves the function
+                ok = any("Result::Err" in str(a.get("pat")) and (ir.diverges(a["body"]) or ir.contains(a["body"], lambda y: y.get("k") == "call" and (y.get("q") or "").endswith("Result::Err::{Ctor#0}")))
+                         for a in p1.get("arms", ()))
+            if not ok:
+                # the value of the function / closure-free tail
+                encl = [p for p in parents if p.get("k") == "closure" and "async fn body" not in (p.get("t") or "") and "Coroutine" not in (p.get("ck") or "")]
+                if not encl and tail_value(b, n):
+                    callers = [c for c in P.bodies if ir.contains(c["body"], lambda y: y.get("k") in ("call", "mcall") and ir.callee(y) == b["q"])]
+                    ok = bool(callers)
+                    for c in callers:
+                        for y, ps, _m in ir.walk(c["body"]):
+                            if y.get("k") in ("call", "mcall") and ir.callee(y) == b["q"]:
+                                pp = [p for p in ps if p.get("k") != "await"]
+                                q1 = pp[-1] if pp else {}
+                                if not (q1.get("k") == "try" or (q1.get("k") == "mcall" and q1.get("name") in ("unwrap", "expect")) or q1.get("k") == "ret" or tail_value(c, y)):
+                                    ok = False
+            if not ok:
+                bad.append("%s(..) in %s at %s" % (n["name"], b["q"].rsplit("::", 2)[-1] if "::" in b["q"] else b["q"], ir.loc(n)))
+    ck.anchor("R-WRITE-ERR", "fallible calls in the container writers", sites, 30)
+    ck.check(not bad, "R-WRITE-ERR", "writers|result-consumed", "every fallible call in the container writers (DataWriterTrait, tar, rusqlite, std::fs, own helpers) ends the writer on failure (`?`, unwrap/expect or returned to a caller that does): %d call(s)" % sites,
+             "the Result of %s is neither propagated nor unwrapped where it is produced: a failed (torn) write can be forgotten and the writer still commits indexes and the final header" % bad[:3])
+
+
 def rules(ck, P):
+    write_errors_rule(ck, P)
     entries = []
     for i in P.impls_of("::TilesWriterTrait"):
         m = P.impl_method(i, "write_to_writer")
